@@ -177,6 +177,15 @@ def clause_welcome(prog, rep):
                     seen_consts |= set(k.get("str") for _, _, k in og.consts if isinstance(k, dict) and k.get("str"))
                 if {"encoding", "base64"} <= seen_consts:
                     strict = True
+                # or nested: the test against "base64" that controls the exit is itself only reached for an `encoding` tag
+                for w in A.control_dependent_switches(g, eb):
+                    og = A.origins(prog, g, A._opl(g.term(w)["discr"]), scope=None, max_frames=0)
+                    if not any(isinstance(k, dict) and k.get("str") == "base64" for _, _, k in og.consts):
+                        continue
+                    for w2 in A.control_dependent_switches(g, w):
+                        og2 = A.origins(prog, g, A._opl(g.term(w2)["discr"]), scope=None, max_frames=0)
+                        if any(isinstance(k, dict) and k.get("str") == "encoding" for _, _, k in og2.consts):
+                            strict = True
         rep.check(strict, "welcome-bound", "refuses/every-encoding-tag",
                   "the welcome validator itself rejects any `encoding` tag whose value is not base64",
                   "the welcome validator no longer rejects a non-base64 `encoding` tag by itself (it only looks for one acceptable tag): a rumor "
